@@ -33,7 +33,61 @@ const nRegs = 3
 type event struct {
 	Ev  string `json:"ev"`
 	P   int    `json:"p"`
+	Q   int    `json:"q,omitempty"` // second registrant of a "race"
 	Cls string `json:"cls,omitempty"`
+}
+
+// ---- gate: holds concurrent registrations at their write (etcd Put / Txn.Commit) until both arrived,
+// so that a check-then-write registration is exposed; an atomic create-if-absent is unaffected.
+type raceKey struct{}
+
+type barrier struct {
+	mu      sync.Mutex
+	n, seen int
+	ch      chan struct{}
+}
+
+func newBarrier(n int) *barrier { return &barrier{n: n, ch: make(chan struct{})} }
+
+func (b *barrier) wait() {
+	b.mu.Lock()
+	b.seen++
+	if b.seen == b.n {
+		close(b.ch)
+	}
+	b.mu.Unlock()
+	select {
+	case <-b.ch:
+	case <-time.After(700 * time.Millisecond):
+	}
+}
+
+func gate(ctx context.Context) {
+	if b, ok := ctx.Value(raceKey{}).(*barrier); ok {
+		b.wait()
+	}
+}
+
+type gateKV struct{ clientv3.KV }
+
+func (g *gateKV) Put(ctx context.Context, key, val string, opts ...clientv3.OpOption) (*clientv3.PutResponse, error) {
+	gate(ctx)
+	return g.KV.Put(ctx, key, val, opts...)
+}
+
+func (g *gateKV) Txn(ctx context.Context) clientv3.Txn { return &gateTxn{Txn: g.KV.Txn(ctx), ctx: ctx} }
+
+type gateTxn struct {
+	clientv3.Txn
+	ctx context.Context
+}
+
+func (t *gateTxn) If(cs ...clientv3.Cmp) clientv3.Txn   { t.Txn = t.Txn.If(cs...); return t }
+func (t *gateTxn) Then(ops ...clientv3.Op) clientv3.Txn { t.Txn = t.Txn.Then(ops...); return t }
+func (t *gateTxn) Else(ops ...clientv3.Op) clientv3.Txn { t.Txn = t.Txn.Else(ops...); return t }
+func (t *gateTxn) Commit() (*clientv3.TxnResponse, error) {
+	gate(t.ctx)
+	return t.Txn.Commit()
 }
 
 type obs struct {
@@ -81,6 +135,51 @@ func runSchedule(ctx context.Context, b *backend, path string, evs []event) []ob
 				o.R = "exists"
 			default:
 				o.R = "other:" + err.Error()
+			}
+		case "race":
+			// two registrations at the same time; at most one may succeed
+			hb := b.fast
+			if e.Cls == "slow" {
+				hb = b.slow
+			}
+			rctx := context.WithValue(ctx, raceKey{}, newBarrier(2))
+			type rr struct {
+				ex  <-chan struct{}
+				st  func()
+				err error
+			}
+			res := make([]rr, 2)
+			var wg sync.WaitGroup
+			for i := range res {
+				i := i
+				wg.Add(1)
+				go func() {
+					defer wg.Done()
+					res[i].ex, res[i].st, res[i].err = b.start(rctx, path, hb)
+				}()
+			}
+			wg.Wait()
+			ids := []int{e.P, e.Q}
+			won := []int{}
+			other := ""
+			for i, r := range res {
+				switch {
+				case r.err == nil:
+					expiry[ids[i]], stop[ids[i]] = r.ex, r.st
+					won = append(won, ids[i])
+				case !errors.Is(r.err, types.ErrKeyExists):
+					other = "other:" + r.err.Error()
+				}
+			}
+			switch {
+			case other != "":
+				o.R = other
+			case len(won) == 2:
+				o.R = "win:both"
+			case len(won) == 1:
+				o.R = fmt.Sprintf("win:%d", won[0])
+			default:
+				o.R = "win:none"
 			}
 		case "dereg":
 			if stop[e.P] != nil {
@@ -179,7 +278,7 @@ func genCase(r *hx.Rng, id string) *kase {
 	for len(k.Events) < n {
 		w := r.Intn(100)
 		switch {
-		case w < 40:
+		case w < 36:
 			p := r.Intn(nRegs)
 			if regd[p] {
 				continue
@@ -190,6 +289,15 @@ func genCase(r *hx.Rng, id string) *kase {
 			}
 			regd[p] = true
 			k.Events = append(k.Events, event{Ev: "reg", P: p, Cls: cls})
+		case w < 46:
+			p, q := r.Intn(nRegs), r.Intn(nRegs)
+			if p == q || regd[p] || regd[q] {
+				continue
+			}
+			// the model learns the winner from the observation; both count as registered for the
+			// generator (deregistering the loser is a no-op)
+			regd[p], regd[q] = true, true
+			k.Events = append(k.Events, event{Ev: "race", P: p, Q: q, Cls: "fast"})
 		case w < 58:
 			p := r.Intn(nRegs)
 			if !regd[p] {
@@ -215,6 +323,9 @@ func corpus() []*kase {
 	return []*kase{
 		// D19: lapse, another registrant takes over, the first one refreshes and deletes the other's key
 		{ID: "corpus-takeover", Kind: "eph", Events: []event{{Ev: "reg", P: 0, Cls: "fast"}, {Ev: "lapse"}, {Ev: "reg", P: 1, Cls: "slow"}, {Ev: "wait"}, {Ev: "dereg", P: 0}, {Ev: "wait"}}},
+		{ID: "corpus-race", Kind: "eph", Events: []event{{Ev: "race", P: 0, Q: 1, Cls: "fast"}, {Ev: "wait"}, {Ev: "dereg", P: 0}, {Ev: "dereg", P: 1}, {Ev: "wait"}}},
+		{ID: "corpus-race-after-lapse", Kind: "eph", Events: []event{{Ev: "reg", P: 0, Cls: "fast"}, {Ev: "lapse"}, {Ev: "race", P: 1, Q: 2, Cls: "fast"}, {Ev: "wait"}}},
+		{ID: "corpus-race-taken", Kind: "eph", Events: []event{{Ev: "reg", P: 2, Cls: "slow"}, {Ev: "race", P: 0, Q: 1, Cls: "fast"}, {Ev: "wait"}}},
 		{ID: "corpus-lapse-alone", Kind: "eph", Events: []event{{Ev: "reg", P: 0, Cls: "fast"}, {Ev: "lapse"}, {Ev: "wait"}}},
 		{ID: "corpus-two-fast", Kind: "eph", Events: []event{{Ev: "reg", P: 0, Cls: "fast"}, {Ev: "lapse"}, {Ev: "reg", P: 1, Cls: "fast"}, {Ev: "wait"}}},
 		{ID: "corpus-handover", Kind: "eph", Events: []event{{Ev: "reg", P: 0, Cls: "fast"}, {Ev: "reg", P: 1, Cls: "fast"}, {Ev: "wait"}, {Ev: "dereg", P: 0}, {Ev: "reg", P: 1, Cls: "fast"}, {Ev: "wait"}}},
@@ -230,6 +341,7 @@ func TestGen(t *testing.T) {
 		t.Fatal(err)
 	}
 	e := &env{etcd: et, cli: embedded.NewCluster(t, cfg.Prefix).RandClient()}
+	e.cli.KV = &gateKV{KV: e.cli.KV}
 	out := hx.OpenOut()
 	defer out.Close()
 
